@@ -26,7 +26,7 @@ from tracklib.core.obs_time import ObsTime
 from tracklib.core.track import Track
 
 from vt import oracle
-from vt.core import SubCheck, Violation, close
+from vt.core import SubCheck, Violation, close, exc_key
 
 INF = oracle.INF
 LETTERS = "abcdefghijkl"
@@ -42,6 +42,21 @@ ASSUMPTIONS = [
     "shortest_distance(s, t, cut=...) for a single pair is not constrained by the property (only the all-pairs table is)",
     "astar sub-check: A* routing (setRoutingMethod(ROUTING_ALGO_ASTAR)) is judged only where its straight-line heuristic is "
     "admissible: astar weight <= 1 and every edge weight >= the distance between the edge's end nodes; 1e-9 relative",
+    "history / small-staged: the property is taken to hold for a Network object at ANY moment of its life: after further "
+    "Network.addEdge / addNode calls, after earlier queries (with or without cut-off / target), tables, prepare(), "
+    "sub_network() extractions and searches on such a sub-network (which shares Node and Edge objects with its parent). "
+    "Every judged answer is compared with Floyd-Warshall over exactly the edges added so far; only nodes present at that "
+    "time are queried; a sub-network is judged as the network of the edges it holds (read back with getEdgesId()), "
+    "whatever sub_network() was asked to keep",
+    "prepare() on an object that was prepared before: Network.DISTANCES is documented to be incremented, so pairs left by "
+    "an earlier prepare are constrained only if they are within the present cut-off (then they must carry the present true "
+    "distance); all other pairs must be absent; prepare with an undecidable cut-off is not executed",
+    "sub_network(mode='GEOMETRIC') is called with a coordinate as source (with a node id / Node object it raises "
+    "AttributeError on this tree - outside this property); verbose=False",
+    "a rejected answer of a history is asked again from a network built in one go from the same edges; if that answer is "
+    "accepted the key is 'answer-depends-on-history' (the original key is kept in the message)",
+    "non-termination guard of histories: Network.run_routing_backward is wrapped on the tested object so that a cyclic "
+    "predecessor chain (which makes it loop forever) is detected at once; under C06 the path is then simply not requested",
 ]
 
 
@@ -91,26 +106,41 @@ def edge_points(case, e):
     return [list(case["pos"][e["src"]])] + [list(p) for p in e.get("mid", [])] + [list(case["pos"][e["tgt"]])]
 
 
-def build_network(case):
-    ids, pos = case["ids"], case["pos"]
+def declare_nodes(net, case):
+    for k in range(len(case["ids"])):
+        net.addNode(Node(case["ids"][k], ENUCoords(case["pos"][k][0], case["pos"][k][1], 0)))
+
+
+def new_network(case):
+    """the empty network of a case (all nodes declared if case["pre"]), routing method set"""
     net = Network()
     if case.get("pre"):
-        for k in range(len(ids)):
-            net.addNode(Node(ids[k], ENUCoords(pos[k][0], pos[k][1], 0)))
-    for j, e in enumerate(case["edges"]):
-        tr = Track([Obs(ENUCoords(p[0], p[1], 0), ObsTime()) for p in edge_points(case, e)])
-        if case.get("abscurv"):
-            computeAbsCurv(tr)
-        edge = Edge("e%d" % j, tr)
-        edge.orientation = e["ori"]
-        edge.weight = e["w"]
-        net.addEdge(edge, Node(ids[e["src"]], tr.getFirstObs().position), Node(ids[e["tgt"]], tr.getLastObs().position))
-    if not case.get("pre"):
-        for k in range(len(ids)):
-            net.addNode(Node(ids[k], ENUCoords(pos[k][0], pos[k][1], 0)))
+        declare_nodes(net, case)
     if case.get("astar") is not None:
         net.setRoutingMethod(Network.ROUTING_ALGO_ASTAR)
         net.setAStarWeight(case["astar"])
+    return net
+
+
+def add_edge(net, case, j):
+    """Network.addEdge of edge j of the case, the way NetworkReader does it"""
+    ids, e = case["ids"], case["edges"][j]
+    tr = Track([Obs(ENUCoords(p[0], p[1], 0), ObsTime()) for p in edge_points(case, e)])
+    if case.get("abscurv"):
+        computeAbsCurv(tr)
+    edge = Edge("e%d" % j, tr)
+    edge.orientation = e["ori"]
+    edge.weight = e["w"]
+    net.addEdge(edge, Node(ids[e["src"]], tr.getFirstObs().position), Node(ids[e["tgt"]], tr.getLastObs().position))
+
+
+def build_network(case):
+    """the complete network, built in one go before any query"""
+    net = new_network(case)
+    for j in range(len(case["edges"])):
+        add_edge(net, case, j)
+    if not case.get("pre"):
+        declare_nodes(net, case)
     return net
 
 
@@ -200,29 +230,39 @@ def classify(case, n, arcs, D, exact):
 
 # ------------------------------------------------------------------------------------------------
 # checks
-def check_pairs(case, net, n, D, exact):
+def check_pair(case, net, s, t, D, exact):
     ids = case["ids"]
-    for s in range(n):
-        for t in range(n):
-            got = net.shortest_distance(handle(net, case, s), handle(net, case, t))
-            want = D[(s, t)]
-            if want == INF:
-                if not got < 0:
-                    raise Violation("unreachable-not-negative", "no permitted walk %s->%s but shortest_distance = %r"
-                                    % (ids[s], ids[t], got))
-            elif got < 0:
-                raise Violation("reachable-reported-unreachable", "%s->%s: true distance %r, shortest_distance = %r"
-                                % (ids[s], ids[t], want, got))
-            elif not agree(got, want, exact):
-                raise Violation("distance-wrong", "%s->%s: true distance %r, shortest_distance = %r"
-                                % (ids[s], ids[t], want, got))
-    order = node_order(case)
-    for s in range(n):
-        got = net.shortest_distance(handle(net, case, s))
-        want = [UNREACHED if D[(s, t)] == INF else D[(s, t)] for t in order]
-        if len(got) != n or not all(agree(g, w, exact) for g, w in zip(got, want)):
-            raise Violation("distance-list-wrong", "shortest_distance(%s) = %r, true %r (nodes %s)"
-                            % (ids[s], got, want, [ids[t] for t in order]))
+    got = net.shortest_distance(handle(net, case, s), handle(net, case, t))
+    want = D[(s, t)]
+    if want == INF:
+        if not got < 0:
+            raise Violation("unreachable-not-negative", "no permitted walk %s->%s but shortest_distance = %r"
+                            % (ids[s], ids[t], got))
+    elif got < 0:
+        raise Violation("reachable-reported-unreachable", "%s->%s: true distance %r, shortest_distance = %r"
+                        % (ids[s], ids[t], want, got))
+    elif not agree(got, want, exact):
+        raise Violation("distance-wrong", "%s->%s: true distance %r, shortest_distance = %r"
+                        % (ids[s], ids[t], want, got))
+
+
+def check_list(case, net, s, D, order, exact):
+    ids = case["ids"]
+    got = net.shortest_distance(handle(net, case, s))
+    want = [UNREACHED if D[(s, t)] == INF else D[(s, t)] for t in order]
+    if len(got) != len(order) or not all(agree(g, w, exact) for g, w in zip(got, want)):
+        raise Violation("distance-list-wrong", "shortest_distance(%s) = %r, true %r (nodes %s)"
+                        % (ids[s], got, want, [ids[t] for t in order]))
+
+
+def check_pairs(case, net, n, D, exact, order=None):
+    """every ordered pair of the nodes present (order = their insertion order; default: the complete network)"""
+    order = node_order(case) if order is None else order
+    for s in sorted(order):
+        for t in sorted(order):
+            check_pair(case, net, s, t, D, exact)
+    for s in sorted(order):
+        check_list(case, net, s, D, order, exact)
 
 
 def resolve_cuts(case, D, exact):
@@ -446,14 +486,488 @@ def strat_tables():
     return graph_cases(cuts=True)
 
 
+# ------------------------------------------------------------------------------------------------
+# histories: ONE Network object that is built in stages, with queries and interfering activity in between.
+#
+#   case["hist"] = [op, ...] executed in order on the same object (the network starts empty, or with all nodes declared
+#   if case["pre"]):
+#     ["add", k]                  Network.addEdge for the next k edges of case["edges"] (fewer if fewer are left)
+#     ["nodes"]                   Network.addNode for every node of the model (declares the isolated ones)
+#     ["all"]                     every ordered pair of the nodes present (C06: + the list forms)          judged
+#     ["dist", s, t] ["list", s]  shortest_distance(s, t) / shortest_distance(s)                            judged by C06
+#     ["path", s, t]              shortest_path(s, t)                                                       judged by C07
+#     ["table", cut] ["prepare", cut]   all_shortest_distances(cut) / prepare(cut) on this very object      judged by C06
+#     ["cutdist", s, t, cut] ["cutpath", s, t, cut]   single-pair queries with a cut-off                    executed only
+#     ["sub", s, cut, mode]       sub = net.sub_network(node s | position of s, cut, "TOPOLOGIC" | "GEOMETRIC", verbose=False),
+#                                 s among the nodes that have an edge at that time
+#     ["subdist"|"subpath", s, t] ["sublist", s] ["suball"] ["subtable", cut]   the same queries on the latest sub-network
+#   node arguments are integers taken modulo the number of nodes present in the (sub-)network at that time (the target of
+#   a path query is moved to a different node than the source whenever two nodes are present);
+#   cut = ["abs", v] | ["at"|"below"|"above", k] resolved by resolve_cuts() against the true distances of that time (for
+#   "sub": against the distinct positive distances from the source node; what the sub-network holds is read back from it).
+#   A module judges only its own kind of answer (C06 distances and tables, C07 paths); everything else is executed as
+#   interfering activity.  Every judged answer is compared with Floyd-Warshall over the edges present AT THAT TIME; an
+#   answer of a sub-network is compared with Floyd-Warshall over the edges that sub-network holds (it is a network).
+def _one_cut(spec, D, present, exact):
+    """(decidable, value) of a cut-off specification against the true distances among the nodes present"""
+    Dp = {(u, v): D[(u, v)] for u in present for v in present}
+    (decidable, c, _rel), = resolve_cuts({"cuts": [spec]}, Dp, exact)
+    return decidable, c
+
+
+def _pick(order, op, want_a, want_b, distinct):
+    """node arguments of an operation among the nodes present; distinct: the second differs from the first if possible"""
+    if not want_a:
+        return None, None
+    i = int(op[1]) % len(order)
+    if not want_b:
+        return order[i], None
+    if distinct and len(order) > 1:
+        return order[i], order[(i + 1 + int(op[2]) % (len(order) - 1)) % len(order)]
+    return order[i], order[int(op[2]) % len(order)]
+
+
+def _judge_table(what, table, ids, D, present, cut, exact, stale=()):
+    """the table must hold exactly the pairs within the cut, with their true distance; pairs in `stale` (left by an
+    earlier prepare into the same dictionary) are not constrained unless they are within the cut"""
+    want = {(ids[s], ids[t]): D[(s, t)] for s in present for t in present if D[(s, t)] <= cut}
+    if stale:
+        table = {k: v for k, v in table.items() if k in want or k not in stale}
+    _check_table(what, table, want, ids, cut, exact)
+    return want
+
+
+def _edge_order(view):
+    out = []
+    for e in view["edges"]:
+        for k in (e["src"], e["tgt"]):
+            if k not in out:
+                out.append(k)
+    return out
+
+
+def _fresh(view, pre, declared, astar):
+    """(network, insertion order of its nodes) built in one go from the edges of a view, never queried before"""
+    v = dict(view, pre=pre, astar=astar)
+    net = new_network(v)
+    for j in range(len(v["edges"])):
+        add_edge(net, v, j)
+    if declared and not pre:
+        declare_nodes(net, v)
+    return net, (node_order(v) if pre or declared else _edge_order(v))
+
+
+def _judge_prepared(net, view, order, D, cut, exact, stale):
+    """net.prepare(cut) has just run.  Pairs in `stale` (left in net.DISTANCES by an earlier prepare of this object; the
+    dictionary is documented to be incremented) are constrained only if they are within the cut now."""
+    ids = view["ids"]
+    want = _judge_table("prepare", net.DISTANCES, ids, D, order, cut, exact, stale=stale)
+    for x in order:
+        for y in order:
+            key = (ids[x], ids[y])
+            if key not in want and key in stale:
+                continue
+            ha, hb = handle(net, view, x), handle(net, view, y)
+            if bool(net.has_prepared_shortest_distance(ha, hb)) != (key in want):
+                raise Violation("prepared-membership-wrong", "prepare(cut=%r): has_prepared_shortest_distance(%s,%s) = %r, "
+                                "true distance %r" % (cut, ids[x], ids[y], key not in want, D[(x, y)]))
+            got = net.prepared_shortest_distance(ha, hb)
+            if not agree(got, D[(x, y)] if key in want else UNREACHED, exact):
+                raise Violation("prepared-wrong-value", "prepare(cut=%r): prepared_shortest_distance(%s,%s) = %r, true %r"
+                                % (cut, ids[x], ids[y], got, D[(x, y)]))
+    return want
+
+
+def guard_backward(net, on_cycle):
+    """Non-termination guard without a clock: Network.run_routing_backward follows node.antecedent until it is "", so a
+    cyclic predecessor chain means it never returns.  The method is wrapped ON THIS OBJECT so that such a chain is
+    reported at once (on_cycle(message) is called, its result returned) instead of burning the CPU budget of the case.
+    Nothing else is changed; if the internals are not as expected the guard does nothing."""
+    orig = net.run_routing_backward
+
+    def guarded(target):
+        cyclic = False
+        try:
+            node = net.NODES[target.id if isinstance(target, Node) else target]
+            for _ in range(len(net.NODES) + 2):
+                if node.antecedent == "":
+                    break
+                node = node.antecedent
+            else:
+                cyclic = True
+        except Exception:
+            cyclic = False
+        if cyclic:
+            return on_cycle("the predecessor chain of target %r left by the forward search is cyclic: "
+                            "run_routing_backward would never return" % (target.id if isinstance(target, Node) else target,))
+        return orig(target)
+    net.run_routing_backward = guarded
+    return net
+
+
+def run_history(case, path_judge=None):
+    """Executes case["hist"].  path_judge is None: C06 mode (distances / tables judged); else C07 mode: only paths are
+    judged, through path_judge(view_case, net, s, t, D, exact) -> None | set of labels.
+    A judged answer that is rejected is asked again from a network built in one go from the same edges: if that one is
+    right, the violation is reported under the single key 'answer-depends-on-history' (one root cause, whatever the symptom).
+    Returns (labels, number of judged answers of the main network, path labels, case view of the final state)."""
+    ids, n = case["ids"], len(case["ids"])
+    dist_mode = path_judge is None
+    exact = is_exact(case) and case.get("astar") is None
+    labels, plabels = set(), set()
+
+    def on_cycle(msg):
+        if dist_mode:                 # paths are not C06's business: the backward phase is skipped
+            labels.add("cyclic-predecessor-chain-skipped")
+            return None
+        raise Violation("predecessor-chain-cyclic", msg)
+
+    net = guard_backward(new_network(case), on_cycle)
+    order = list(range(n)) if case.get("pre") else []
+    st_ = {"cnt": 0, "judged": 0, "searched": False, "phase": 0, "declared": False}
+    cache = {}
+    late = {}                         # edge index -> orientation, for edges added after a search on this object
+    stale = set()                     # keys a prepare() left in net.DISTANCES
+    sub = None
+
+    def cur():
+        c = st_["cnt"]
+        if c not in cache:
+            view = dict(case, edges=case["edges"][:c])
+            cache[c] = (view, model(view)[2])
+        return cache[c]
+
+    def main_search(judged):
+        """bookkeeping of a search on the main network"""
+        st_["searched"] = True
+        if judged:
+            st_["judged"] += 1
+            if st_["phase"] == 3:
+                labels.add("judged-after-sub-search")
+            view, D = cur()
+            for j, o in late.items():
+                e = case["edges"][j]
+                if e["src"] != e["tgt"] and ((o >= 0 and agree(e["w"], D[(e["src"], e["tgt"])], exact))
+                                             or (o <= 0 and agree(e["w"], D[(e["tgt"], e["src"])], exact))):
+                    labels.add("late-edge-on-sp:ori=%+d" % o)
+            if late:
+                labels.add("judged-after-late-edge")
+        if st_["phase"] in (1, 3):
+            st_["phase"] = 2
+
+    def judge(fn, nt, od, view, is_sub):
+        """fn(network, node order) obtains and judges one answer (Violation, or an exception escaping tracklib)"""
+        try:
+            fn(nt, od)
+        except (Violation, Exception, SystemExit) as v:
+            try:
+                fnet, forder = _fresh(view, False if is_sub else bool(case.get("pre")), False if is_sub else st_["declared"],
+                                      None if is_sub else case.get("astar"))
+                fn(guard_backward(fnet, on_cycle), forder)
+            except (Violation, Exception, SystemExit):
+                raise v
+            what = "[%s] %s" % (v.key, v.msg) if isinstance(v, Violation) else "[%s] %s: %s" % (exc_key(v), type(v).__name__, v)
+            raise Violation("answer-depends-on-history", "%s -- but a network built in one go from the same %d edges answers "
+                            "correctly" % (what[:600], len(view["edges"])))
+
+    def jpath(view, nt, s, t, D):
+        r = path_judge(view, nt, s, t, D, exact)
+        plabels.update({"unreachable-pair"} if r is None else r)
+
+    def all_pairs(view, D):
+        if dist_mode:
+            return lambda nt, od: check_pairs(view, nt, n, D, exact, order=od)
+        return lambda nt, od: [jpath(view, nt, x, y, D) for x in sorted(od) for y in sorted(od) if x != y]
+
+    for op in case["hist"]:
+        kind = op[0]
+        if kind == "add":
+            for _ in range(int(op[1])):
+                j = st_["cnt"]
+                if j >= len(case["edges"]):
+                    break
+                add_edge(net, case, j)
+                st_["cnt"] += 1
+                for k in (case["edges"][j]["src"], case["edges"][j]["tgt"]):
+                    if k not in order:
+                        order.append(k)
+                if st_["searched"]:
+                    late[j] = case["edges"][j]["ori"]
+            continue
+        if kind == "nodes":
+            declare_nodes(net, case)
+            order.extend(k for k in range(n) if k not in order)
+            st_["declared"] = True
+            continue
+        if kind.startswith("sub") and kind != "sub":
+            if sub is None or not sub["order"]:
+                labels.add("sub-query-without-sub-network")
+                continue
+            sview, snet, sorder, sD = sub["view"], sub["net"], sub["order"], sub["D"]
+            a, b = _pick(sorder, op, kind != "subtable" and len(op) > 1, len(op) > 2, kind == "subpath")
+            if st_["phase"] == 2:
+                st_["phase"] = 3
+            if kind == "subdist":
+                if dist_mode:
+                    judge(lambda nt, od: check_pair(sview, nt, a, b, sD, exact), snet, sorder, sview, True)
+                else:
+                    snet.shortest_distance(handle(snet, sview, a), handle(snet, sview, b))
+            elif kind == "sublist":
+                if dist_mode:
+                    judge(lambda nt, od: check_list(sview, nt, a, sD, od, exact), snet, sorder, sview, True)
+                else:
+                    snet.shortest_distance(handle(snet, sview, a))
+            elif kind == "subpath":
+                if dist_mode:
+                    snet.shortest_path(handle(snet, sview, a), handle(snet, sview, b))
+                elif a == b:
+                    judge(lambda nt, od: nt.shortest_path(handle(nt, sview, a), handle(nt, sview, b)), snet, sorder, sview, True)
+                else:
+                    judge(lambda nt, od: jpath(sview, nt, a, b, sD), snet, sorder, sview, True)
+            elif kind == "suball":
+                judge(all_pairs(sview, sD), snet, sorder, sview, True)
+            elif kind == "subtable":
+                decidable, c = _one_cut(op[1], sD, sorder, exact)
+                if dist_mode and decidable:
+                    judge(lambda nt, od: _judge_table("sub_network.all_shortest_distances", nt.all_shortest_distances(cut=c),
+                                                      ids, sD, od, c, exact), snet, sorder, sview, True)
+                else:
+                    snet.all_shortest_distances(cut=c)
+            else:
+                raise AssertionError("unknown op %r" % (op,))
+            labels.add("sub-network-searched")
+            continue
+        if not order:
+            labels.add("query-on-empty-network")
+            continue
+        view, D = cur()
+        a, b = _pick(order, op, kind in ("dist", "list", "path", "cutdist", "cutpath", "sub"),
+                     kind in ("dist", "path", "cutdist", "cutpath"), kind in ("path", "cutpath"))
+        if kind == "all":
+            main_search(True)
+            judge(all_pairs(view, D), net, order, view, False)
+        elif kind == "dist":
+            main_search(dist_mode)
+            if dist_mode:
+                judge(lambda nt, od: check_pair(view, nt, a, b, D, exact), net, order, view, False)
+            else:
+                net.shortest_distance(handle(net, view, a), handle(net, view, b))
+        elif kind == "list":
+            main_search(dist_mode)
+            if dist_mode:
+                judge(lambda nt, od: check_list(view, nt, a, D, od, exact), net, order, view, False)
+            else:
+                net.shortest_distance(handle(net, view, a))
+        elif kind == "path":
+            if dist_mode:
+                main_search(False)
+                net.shortest_path(handle(net, view, a), handle(net, view, b))
+            elif a == b:                  # nothing is demanded of the answer, but it must come
+                main_search(False)
+                judge(lambda nt, od: nt.shortest_path(handle(nt, view, a), handle(nt, view, b)), net, order, view, False)
+            else:
+                main_search(True)
+                judge(lambda nt, od: jpath(view, nt, a, b, D), net, order, view, False)
+        elif kind in ("cutdist", "cutpath"):
+            _, c = _one_cut(op[3], D, order, exact)
+            main_search(False)
+            if kind == "cutdist":
+                net.shortest_distance(handle(net, view, a), handle(net, view, b), cut=c)
+            elif dist_mode:
+                net.shortest_path(handle(net, view, a), handle(net, view, b), cut=c)
+            else:
+                judge(lambda nt, od: nt.shortest_path(handle(nt, view, a), handle(nt, view, b), cut=c), net, order, view, False)
+            labels.add("single-pair-cut-in-between")
+        elif kind == "table":
+            decidable, c = _one_cut(op[1], D, order, exact)
+            main_search(dist_mode and decidable)
+            if dist_mode and decidable:
+                judge(lambda nt, od: _judge_table("all_shortest_distances", nt.all_shortest_distances(cut=c), ids, D, od, c, exact),
+                      net, order, view, False)
+                labels.add("table-after-late-edge" if late else "table")
+            else:
+                net.all_shortest_distances(cut=c)
+        elif kind == "prepare":
+            decidable, c = _one_cut(op[1], D, order, exact)
+            if not decidable:
+                labels.add("prepare-undecidable-skipped")
+                continue
+            main_search(dist_mode)
+            if dist_mode:
+                got = []
+
+                def prep(nt, od):
+                    nt.prepare(cut=c, verbose=False)
+                    got.append(_judge_prepared(nt, view, od, D, c, exact, stale))
+                judge(prep, net, order, view, False)
+                labels.add("prepare-again" if stale else "prepare")
+                stale |= set(got[0])
+            else:
+                net.prepare(cut=c, verbose=False)
+        elif kind == "sub":
+            ends = [k for k in order if any(k in (e["src"], e["tgt"]) for e in view["edges"])]
+            a = (ends or order)[int(op[1]) % len(ends or order)]        # around a node that has an edge, if there is one
+            if op[2][0] == "abs":
+                c = float(op[2][1])
+            else:                         # relative to the k-th distinct positive distance FROM that node (what is kept is read back)
+                pos_d = sorted({D[(a, v)] for v in order if 0 < D[(a, v)] < INF}) or [0.0]
+                c = pos_d[int(op[2][1]) % len(pos_d)]
+                c = c if exact and op[2][0] == "at" else c + 0.25 if exact else c * (1 + 1e-6) + 1e-7
+            mode = op[3]
+            if mode == "TOPOLOGIC":
+                main_search(False)
+                snet = net.sub_network(handle(net, view, a), c, mode, verbose=False)
+            else:
+                snet = net.sub_network(ENUCoords(case["pos"][a][0], case["pos"][a][1], 0), c, mode, verbose=False)
+            guard_backward(snet, on_cycle)
+            held = [int(str(i)[1:]) for i in snet.getEdgesId()]
+            sview = dict(case, edges=[case["edges"][j] for j in held])
+            sub = {"net": snet, "view": sview, "order": _edge_order(sview), "D": model(sview)[2]}
+            st_["phase"] = 1
+            labels.add("sub-network:" + ("empty" if not held else "whole" if len(held) == st_["cnt"] else "proper"))
+            labels.add("sub-network:" + mode.lower())
+        else:
+            raise AssertionError("unknown op %r" % (op,))
+    labels.add("build=staged" if late else "build=whole-before-first-search")
+    return labels, st_["judged"], plabels, cur()[0]
+
+
+def _validate_hist(case):
+    _validate(case)
+    if case.get("astar") is not None:
+        _validate_astar(case)
+    for op in case["hist"]:
+        assert isinstance(op, list) and op and isinstance(op[0], str)
+
+
+def body_history(case):
+    _validate_hist(case)
+    labels, judged, _, view = run_history(case)
+    if not judged:
+        return {"undef": True, "cls": ["no-judged-answer"]}
+    n, arcs, D = model(view)
+    exact = is_exact(case) and case.get("astar") is None
+    cls, nt = classify(view, n, arcs, D, exact)
+    if case.get("astar") is not None:
+        cls = [c for c in cls if c != "float-weights"] + ["astar"]
+    return {"nt": nt, "cls": cls + sorted(labels)}
+
+
+_NODE = st.integers(0, 11)
+
+
+def _cut_specs():
+    rel = st.tuples(st.sampled_from(["at", "at", "below", "above"]), st.integers(0, 30)).map(list)
+    ab = st.one_of(st.sampled_from([0.0, 1e300, 1e9, -1.0]), st.integers(0, 160).map(lambda k: k / 4.0)).map(lambda v: ["abs", v])
+    return st.one_of(rel, rel, ab)
+
+
+def _sub_cut_specs():
+    """cut-offs that tend to keep a proper part of the network"""
+    rel = st.tuples(st.sampled_from(["at", "above"]), st.integers(0, 8)).map(list)
+    ab = st.one_of(st.sampled_from([0.0, 1e300]), st.integers(1, 40).map(lambda k: k / 4.0), st.integers(1, 40).map(lambda k: k / 4.0))
+    return st.one_of(rel, rel, ab.map(lambda v: ["abs", v]))
+
+
+@st.composite
+def _segments(draw, paths, has_sub):
+    """a short run of operations between two stages of the construction; paths: path queries prevail (C07)"""
+    cut = _cut_specs()
+    dist = st.tuples(st.just("dist"), _NODE, _NODE).map(list)
+    path = st.tuples(st.just("path"), _NODE, _NODE).map(list)
+    single = st.one_of(path, path, path, dist) if paths else st.one_of(dist, dist, dist, path)
+    mainq = st.one_of(single, single, single, st.just(["all"]), st.tuples(st.just("list"), _NODE).map(list))
+    other = st.one_of(st.tuples(st.just("table"), cut), st.tuples(st.just("prepare"), cut),
+                      st.tuples(st.just("cutdist"), _NODE, _NODE, cut), st.tuples(st.just("cutpath"), _NODE, _NODE, cut)).map(list)
+    subx = st.tuples(st.just("sub"), _NODE, _sub_cut_specs(), st.sampled_from(["TOPOLOGIC", "TOPOLOGIC", "GEOMETRIC"])).map(list)
+    subdist = st.tuples(st.just("subdist"), _NODE, _NODE).map(list)
+    subpath = st.tuples(st.just("subpath"), _NODE, _NODE).map(list)
+    subsingle = st.one_of(subpath, subpath, subpath, subdist) if paths else st.one_of(subdist, subdist, subdist, subpath)
+    subq = st.one_of(subsingle, subsingle, st.just(["suball"]), st.tuples(st.just("sublist"), _NODE).map(list),
+                     st.tuples(st.just("subtable"), cut).map(list))
+    k = draw(st.integers(0, 9))
+    if k <= 2:
+        return [draw(mainq)]
+    if k <= 4:
+        return [draw(other)]
+    # the network and one of its sub-networks in turns
+    seg = [draw(subx)] if not has_sub or k <= 6 else []
+    return seg + draw(st.lists(st.one_of(mainq, mainq, subq, subq, other), min_size=1, max_size=5)) + [draw(single)]
+
+
+@st.composite
+def history_cases(draw, geom=False, astar=False, paths=False):
+    if astar:
+        case = draw(astar_cases(geom=geom))
+    else:
+        case = draw(graph_cases(geom=geom, min_nodes=2, max_nodes=8, max_edges=16))
+    m = len(case["edges"])
+    style = draw(st.sampled_from(["whole", "prefix", "prefix", "groups", "groups", "one-by-one"]))
+    if style == "whole" or m == 0:
+        sizes = [m]
+    elif style == "prefix":
+        k = draw(st.integers(0, m))
+        sizes = [k, m - k]
+    elif style == "groups":
+        cuts = sorted(draw(st.lists(st.integers(0, m), min_size=2, max_size=3)))
+        sizes = [b - a for a, b in zip([0] + cuts, cuts + [m])]
+    else:
+        k = draw(st.integers(1, min(m, 4)))
+        sizes = [m - k] + [1] * k
+    declare_after = draw(st.sampled_from([0, 0, len(sizes) - 1, len(sizes) - 1, len(sizes)]))     # only if not case["pre"]
+    hist = []
+    has_sub = False
+    for i, k in enumerate(sizes):
+        last = i == len(sizes) - 1
+        hist.append(["add", k])
+        if not case["pre"] and i == declare_after:
+            hist.append(["nodes"])
+        for _ in range(draw(st.integers(1 if last else 0, 3))):
+            seg = draw(_segments(paths, has_sub))
+            has_sub = has_sub or any(op[0] == "sub" for op in seg)
+            hist.extend(seg)
+        if draw(st.integers(0, 3)) > 0 and (last or draw(st.booleans())):
+            hist.append(["all"])
+    case["hist"] = hist
+    return case
+
+
+def strat_history():
+    return st.one_of(history_cases(), history_cases(), history_cases(), history_cases(astar=True))
+
+
+def body_small_staged(case):
+    """the enumerated space, built edge by edge on one object with every pair (+ tables) queried after every edge"""
+    full = expand_small(case)
+    m = len(full["edges"])
+    cuts = [["abs", -1.0], ["abs", 1e300]] + [[kind, k] for k in range(4) for kind in ("at", "above")]
+    hist = [["all"]]
+    for j in range(m):
+        hist += [["add", 1], ["all"]] + [["table", c] for c in cuts[(j % 2)::2]]
+    full["hist"] = hist
+    labels, judged, _, view = run_history(full)
+    n, arcs, D = model(view)
+    cls, nt = classify(view, n, arcs, D, True)
+    return {"nt": nt and m >= 1, "cls": [c for c in cls if c not in ("exact-weights", "n<=3")] + sorted(labels)}
+
+
 RULE = ("pairs/tables: Hypothesis multigraphs of 1..12 nodes and 0..40 edges (self-loops, parallel and anti-parallel edges, "
         "orientations 0/+1/-1, weights from {0,1,2} / {0,.5,1,2,3.5} / floats in [0,100], isolated nodes, permuted ids, "
         "nodes declared before or through the edges, queries by id or by Node); pairs: every ordered (s,t) incl. s=t through "
         "shortest_distance(s,t) and the list form shortest_distance(s); tables: 1..4 cut-offs at / just below / just above a "
         "true distance, 0, negative, 1e9, 1e300, through all_shortest_distances(cut) and prepare(cut)+has_/prepared_shortest_distance; "
         "small: every edge sequence of length <= 2 (quick) / <= 3 (thorough) over 3 nodes, pairs + tables at every distinct "
-        "distance, 0.25 above it, negative and 1e300. Non-trivial: some reverse-oriented, zero-weight or parallel edge lies "
-        "on a shortest walk, or some ordered pair is unreachable. Distinct = hash of the case.")
+        "distance, 0.25 above it, negative and 1e300. "
+        "history: the same multigraphs (2..8 nodes, <= 16 edges; 1 in 4: A* on admissible weights, <= 10 nodes / 30 edges) as a "
+        "program run on ONE Network object: edges added whole / as prefix + rest / in 2-4 groups / the last 1-4 one by one, "
+        "isolated nodes declared before, early or late; between the stages and at the end 0..3 segments of: a judged query "
+        "(pair, list form, all pairs), a table / prepare / single-pair query with cut-off / shortest_path, or a sub_network "
+        "extraction (TOPOLOGIC around a node, GEOMETRIC around its position; cut-off at / above a distance from that node "
+        "or absolute) followed by 1..5 operations alternating between the network and the sub-network (pair / list / all / "
+        "table queries on the sub-network are judged as well) and a final single query. small-staged: the enumerated space "
+        "built edge by edge on one object with all pairs + list forms + half of the cut-offs after every addEdge. "
+        "Non-trivial: some reverse-oriented, zero-weight or parallel edge lies on a shortest walk (of the final state), or "
+        "some ordered pair is unreachable. Distinct = hash of the case.")
 
 SUBCHECKS = [
     SubCheck("pairs", body_pairs, strategy=strat_pairs, quick=6000, thorough=240000, qshards=6,
@@ -463,6 +977,14 @@ SUBCHECKS = [
     SubCheck("astar", body_astar, strategy=strat_astar, quick=3000, thorough=100000, qshards=4,
              rule="A* routing method on multigraphs whose weights are >= the straight-line distance of their end nodes "
                   "(admissible heuristic, astar weight in {0, .25, .5, 1}): every ordered pair + list form against Floyd-Warshall"),
+    SubCheck("history", body_history, strategy=strat_history, quick=2400, thorough=100000, qshards=8,
+             rule="one Network object built in stages (whole / prefix + rest / 2-4 groups / last edges one by one; isolated "
+                  "nodes declared early or late) with judged queries, tables, prepare, cut-off queries, sub_network "
+                  "extraction and searches on the sub-network in between; every judged answer against Floyd-Warshall over "
+                  "the edges present at that time; 1 in 4 with A* routing on admissible weights"),
+    SubCheck("small-staged", body_small_staged, enum=enum_small,
+             rule="the enumerated space built edge by edge on one object: all pairs + list forms + tables after every addEdge",
+             qshards=4),
     SubCheck("small", body_small, enum=enum_small,
              rule="all graphs on 3 nodes with <= 2 (quick) / <= 3 (thorough) edges, weights {0,1,2}", qshards=4),
 ]
